@@ -87,11 +87,11 @@ def findings():
     return out
 
 
-def eval_cases(name, terms, shard=120, timeout=900):
+def eval_cases(name, terms, shard=120, timeout=900, fn="acodes"):
     jobs = []
     for s in range(0, len(terms), shard):
         body = L.HEADER + "Definition cases : list acase := [\n" + ";\n".join(terms[s:s + shard]) + "].\n"
-        body += "Eval vm_compute in (length cases, acodes 0 cases).\nEval vm_compute in (amaxdiff_agreeing cases).\n"
+        body += f"Eval vm_compute in (length cases, {fn} 0 cases).\nEval vm_compute in (amaxdiff_agreeing cases).\n"
         jobs.append((f"{name}_{s // shard}", body))
     outs = core.coqc_many(jobs, timeout)
     codes = {}
@@ -108,7 +108,10 @@ def eval_cases(name, terms, shard=120, timeout=900):
             maxdiff = max(maxdiff, float(md.group(1).replace("infinity", "inf")))
         except Exception:
             maxdiff = float("nan")
-        for a, b in re.findall(r"\((\d+),\s*(\d+)\)", m.group(2)):
+        pairs = re.findall(r"\(\s*(\d+)\s*,\s*(\d+)\s*\)", m.group(2))
+        if len(pairs) != m.group(2).count("("):          # fail closed: every printed pair must have been parsed
+            return None, f"shard {si}: could not parse the list of codes\n{m.group(2)[:500]}", None
+        for a, b in pairs:
             codes[si * shard + int(a)] = int(b)
     return codes, None, maxdiff
 
@@ -140,6 +143,13 @@ def run(ctx):
     if "arnoldi_batch_shared_stop" in present:
         avoided["batch_mixed"] = len(mixed)
         mixed = []
+    # exact-arithmetic stream: integer / dyadic data, canonical start vectors, permutations, coordinate invariant subspaces, 1x1;
+    # remainders exactly 0.0 at the breakdown, tolerances on the boundaries (0, norm == tol/2, norm == tol*reference), every
+    # max_iters around the grade and around n.  Compared without any excuse (bit-exact runs).
+    exact = [L.gen_exact_case(ctx.rng) for _ in range(ctx.budget(150, 900))]
+    if "arnoldi_clip_garbage" in present:      # pinned normalisation: tol = 0 with a zero remainder is 0/0 (region of that flag)
+        avoided["exact_tol0"] = sum(1 for c in exact if c["tol"] == 0.0)
+        exact = [c for c in exact if c["tol"] != 0.0]
     big = []
     for _ in range(ctx.budget(10, 50)):
         c = L.gen_case(ctx.rng, present, nmax=12, force=dict(n=int(ctx.rng.choice([30, 64, 100, 200])), kind="dense"))
@@ -188,6 +198,18 @@ def run(ctx):
                 ci, b = owner[j]
                 mism.append(dict(oracle_fail=False, case=mixed[ci], element=b, model_code=cd, got={k: mobs[ci].get(k) for k in ("shapes", "H")},
                                  model_disagrees="batch element differs from the single-start run of the same start vector"))
+    # exact stream: oracle + plain (gate-free) comparison with the model
+    xobs = [L.run_impl(c) for c in exact]
+    xok = [i for i, o in enumerate(xobs) if o.get("ok")]
+    xcodes, xerr, _ = eval_cases("c15_exact", [L.coq_case(exact[i], xobs[i], capped, rfix, cfix) for i in xok], fn="acodes_plain")
+    if xerr:
+        mism.append(dict(oracle_fail=False, harness_error=xerr))
+    xbad = {xok[j] for j in (xcodes or {})}
+    for i, (c, o) in enumerate(zip(exact, xobs)):
+        bad = L.oracle(c, o, present)
+        if bad or i in xbad:
+            mism.append(dict(oracle_fail=bool(bad), case=c, got={k: o.get(k) for k in ("ok", "err", "shapes", "Q", "H")}, failed_clauses=bad,
+                             model_disagrees=("exact-arithmetic case: values of Q/H differ from the model (no tolerance excuse applies)" if i in xbad else None)))
     for c in gone_region + big:
         o = L.run_impl(c)
         bad = L.oracle(c, o, present)
@@ -206,7 +228,7 @@ def run(ctx):
         rel = "m<n" if c["max_iters"] < c["n"] else ("m=n" if c["max_iters"] == c["n"] else "m>n")
         mh[rel] = mh.get(rel, 0) + 1
     return dict(
-        evaluations=len(cases) + len(gone_region) + len(big) + len(mixed), distinct_nontrivial=distinct,
+        evaluations=len(cases) + len(gone_region) + len(big) + len(mixed) + len(exact), distinct_nontrivial=distinct,
         rule="square operators n<=%d (dense/Sum/Product/ScalarMul/Kronecker/Diagonal/matmat-defined; real and complex; generic, symmetric, unitary, skew, "
              "block-triangular non-normal with an invariant subspace), starts random/in an invariant subspace (breakdown)/scaled, 1-D and batched, max_iters 1..n+3 "
              "(m<n, m=n, m>n), ten tolerances; non-trivial = n>=3 and max_iters>=2; distinct by hash of (operator data, start, max_iters, tol)" % nmax,
@@ -219,7 +241,7 @@ def run(ctx):
                    breakdown_cases=sum(1 for c in cases if min(c["grades"]) < min(c["max_iters"], c["n"])),
                    complex_cases=sum(1 for c in cases if c["cplx"]), batched_cases=sum(1 for c in cases if c["batch"]),
                    eigs_cases=sum(1 for c in cases if c["entry"] == "arnoldi_eigs"),
-                   avoided_regions=avoided, mixed_batches_used=len(mixed), batch_elements_vs_single_start=elem_compared, defect_free_region_cases=len(gone_region), large_oracle_only=len(big),
+                   avoided_regions=avoided, exact_stream_cases=len(exact), exact_stream_tol0=sum(1 for c in exact if c['tol'] == 0.0), mixed_batches_used=len(mixed), batch_elements_vs_single_start=elem_compared, defect_free_region_cases=len(gone_region), large_oracle_only=len(big),
                    impl_exceptions=sum(1 for o in obs if not o.get("ok"))))
 
 
